@@ -183,6 +183,8 @@ Definition v_ok (c : vcase) : bool :=
 
 (* ---- election trigger as its user sees it (Timer.v): public ops, triggers read from the channel in order ---- *)
 From LH Require Import Timer.
-Definition tgcase := (list pop * list (N * N))%type.
+Definition tgcase := (list pop * list (N * N) * N)%type.   (* ops, pairs read from the channel, goroutines of the trigger left at the end *)
 Definition tg_ok (c : tgcase) : bool :=
-  list_eqb (fun a b => N.eqb (fst a) (fst b) && N.eqb (snd a) (snd b)) (tm_public_run (fst c)) (snd c).
+  let '(ops, got, parked) := c in
+  list_eqb (fun a b => N.eqb (fst a) (fst b) && N.eqb (snd a) (snd b)) (tm_public_run ops) got
+  && N.eqb (N.of_nat (tm_public_parked ops)) parked.
